@@ -8,7 +8,9 @@ import Resvg.Props.C02
 #print axioms Resvg.Props.C02.C02_max_box
 #print axioms Resvg.Props.C02.C02_layer_no_panic
 #print axioms Resvg.Props.C02.inSize_region
-#print axioms Resvg.Props.C02.C02_sizes_agree_partial
-#print axioms Resvg.Props.C02.C02_sizes_agree_false
+#print axioms Resvg.Props.C02.C02_sizes_agree
+#print axioms Resvg.Props.C02.C02_fix_conservative
+#print axioms Resvg.Props.C02.C02_old_sizes_agree_partial
+#print axioms Resvg.Props.C02.C02_old_sizes_agree_false
 #print axioms Resvg.Props.C02.C02_tile_bounded_false
 #print axioms Resvg.Props.C02.C02_tile_bounded_partial
